@@ -214,7 +214,8 @@ def code_agreement(ctx):
         if isinstance(st, ast.Assign) and is_name(st.targets[0]) and isinstance(st.value, ast.Call) \
                 and isinstance(st.value.func, ast.Attribute) and st.value.func.attr in ('__star__', '__starstar__'):
             consts[st.targets[0].id] = st.value.func.attr
-    cu = ctx.unit('core.Path.from_text.create')
+    from .c01 import from_text_units
+    _fu, cu = from_text_units(ctx)
     mapping = {}
     for c in [n for n in cu.own_nodes() if isinstance(n, ast.ListComp)]:
         e = c.elt
